@@ -106,7 +106,7 @@ pub fn wide_case(width: usize, pos: usize, op: u8) -> Vec<(String, &'static str)
 
 pub fn wide_cases() -> Vec<(usize, usize, u8)> {
     let mut out = Vec::new();
-    for w in (1..=70usize).chain([255, 256, 257, 1000]) {
+    for w in (1..=70usize).chain([255, 256, 257, 1000, 1023, 1024, 1025, 1026, 2047, 2048, 2049, 4097]) {
         let positions: Vec<usize> = if w <= 70 { (0..w).collect() } else { (0..3).chain(w / 2..w / 2 + 2).chain(w - 70..w).collect() };
         for p in positions {
             for op in 0..3u8 {
@@ -237,6 +237,9 @@ pub fn run_all() -> (Vec<Problem>, u64) {
     let (fr, fr_n) = from_raw_all();
     out.extend(fr);
     n += fr_n;
+    let (bk, bk_n) = bulk_all();
+    out.extend(bk);
+    n += bk_n;
     // keep one problem per key
     out.sort_by(|a, b| a.0.cmp(&b.0));
     out.dedup_by(|a, b| a.0 == b.0);
@@ -258,6 +261,14 @@ pub fn replay(case: &serde_json::Value) -> String {
             Ok(()) => "ok".into(),
             Err(w) => w,
         },
+        Some("bulk") => {
+            let v = bulk_case(c["n"].as_u64().unwrap_or(15) as usize, c["k"].as_u64().unwrap_or(0) as usize, c["op"].as_u64().unwrap_or(0) as u8);
+            if v.is_empty() {
+                "ok".into()
+            } else {
+                v.into_iter().map(|x| x.0).collect::<Vec<_>>().join("; ")
+            }
+        }
         Some("from-raw") => {
             let parents: Vec<Option<usize>> = c["parents"].as_array().map(|a| a.iter().map(|v| v.as_u64().map(|x| x as usize)).collect()).unwrap_or_default();
             let v = from_raw_case(&parents, c["new_root"].as_u64().unwrap_or(0) as usize, c["follow"].as_u64().unwrap_or(0) as u8);
@@ -568,6 +579,297 @@ pub fn from_raw_all() -> (Vec<Problem>, u64) {
                             prop,
                         ));
                     }
+                }
+            }
+        }
+    }
+    out.sort_by(|a, b| a.0.cmp(&b.0));
+    out.dedup_by(|a, b| a.0 == b.0);
+    (out, count)
+}
+
+// ---------------------------------------------------------------------------
+// DOMs with many instances overall (15 .. 4097, around powers of two): a ternary tree whose
+// instances carry an Int32, a Ref to another instance ((7 i + 3) mod n) and, one in five, a
+// UniqueId.  One operation on the subtree of node k (the first, second, a middle and the last
+// node; destroy / transfer_within / transfer / there-and-back / clone_within /
+// clone_into_external), then *every* instance is compared with the documented outcome.
+
+pub fn bulk_case(n: usize, k: usize, op: u8) -> Vec<(String, &'static str)> {
+    use rbx_dom_weak::types::UniqueId;
+    let mut dom = WeakDom::new(InstanceBuilder::new("DataModel").with_name("root"));
+    let mut dest = WeakDom::new(InstanceBuilder::new("DataModel").with_name("droot"));
+    let there = dest.insert(dest.root_ref(), InstanceBuilder::new("Folder").with_name("there"));
+    let resident = dest.insert(there, InstanceBuilder::new("Folder").with_name("resident"));
+    let parent_of = |i: usize| if i == 0 { None } else { Some((i - 1) / 3) };
+    let builders: Vec<InstanceBuilder> = (0..n).map(|i| InstanceBuilder::new(["Folder", "Part", "Model"][i % 3]).with_name(format!("n{}", i))).collect();
+    let refs: Vec<Ref> = builders.iter().map(|b| b.referent()).collect();
+    for (i, mut b) in builders.into_iter().enumerate() {
+        b = b.with_property("P", Variant::Int32(i as i32)).with_property("R", Variant::Ref(refs[(7 * i + 3) % n]));
+        if i % 5 == 0 {
+            b = b.with_property("UniqueId", Variant::UniqueId(UniqueId::new(i as u32 + 1, 77, -9)));
+        }
+        let parent = match parent_of(i) {
+            Some(p) => refs[p],
+            None => dom.root_ref(),
+        };
+        dom.insert(parent, b);
+    }
+    let in_sub = |i: usize| {
+        let mut c = i;
+        loop {
+            if c == k {
+                return true;
+            }
+            match parent_of(c) {
+                Some(p) => c = p,
+                None => return false,
+            }
+        }
+    };
+    let sub: Vec<usize> = (0..n).filter(|i| in_sub(*i)).collect();
+    // both DOMs also hold a parentless tree (what an unparented clone leaves behind): no
+    // operation on the rooted tree may touch it
+    let orphan_child = InstanceBuilder::new("Part").with_name("orphan-child").with_property("R", Variant::Ref(refs[n - 1]));
+    let orphan_child_ref = orphan_child.referent();
+    let orphan = dom.insert(Ref::none(), InstanceBuilder::new("Folder").with_name("orphan").with_child(orphan_child));
+    let dorphan = dest.insert(Ref::none(), InstanceBuilder::new("Folder").with_name("dorphan"));
+    let mut known: Vec<(String, Ref)> = vec![("root".to_owned(), dom.root_ref()), ("orphan".to_owned(), orphan), ("orphan-child".to_owned(), orphan_child_ref)];
+    known.extend((0..n).map(|i| (format!("n{}", i), refs[i])));
+    let dknown: Vec<(String, Ref)> = vec![("droot".to_owned(), dest.root_ref()), ("there".to_owned(), there), ("resident".to_owned(), resident), ("dorphan".to_owned(), dorphan)];
+    let before = snapshot(&dom, &known);
+    let dbefore = snapshot(&dest, &dknown);
+    // a destination for transfer_within outside the subtree: the last node not in it, else the root
+    let dst = (0..n).rev().find(|i| !in_sub(*i) && Some(*i) != parent_of(k)).map(|i| (format!("n{}", i), refs[i])).unwrap_or(("root".to_owned(), dom.root_ref()));
+    let kr = refs[k];
+    let kname = format!("n{}", k);
+    let old_parent_name = parent_of(k).map(|p| format!("n{}", p)).unwrap_or("root".to_owned());
+    let old_parent = parent_of(k).map(|p| refs[p]).unwrap_or(dom.root_ref());
+    let res = crate::evidence::guarded(|| match op {
+        0 => {
+            dom.destroy(kr);
+            None
+        }
+        1 => {
+            dom.transfer_within(kr, dst.1);
+            None
+        }
+        2 => {
+            dom.transfer(kr, &mut dest, there);
+            None
+        }
+        3 => {
+            dom.transfer(kr, &mut dest, there);
+            dest.transfer(kr, &mut dom, old_parent);
+            None
+        }
+        4 => Some(dom.clone_within(kr)),
+        _ => Some(dom.clone_into_external(kr, &mut dest)),
+    });
+    let copy = match res {
+        Ok(c) => c,
+        Err((site, msg)) => return vec![(format!("panicked at {}: {}", site, msg), "C09")],
+    };
+    let mut problems: Vec<(String, &'static str)> = Vec::new();
+    if let Err(e) = well_formed(&dom) {
+        problems.push((format!("source DOM: {}", e), "C09"));
+    }
+    if let Err(e) = well_formed(&dest) {
+        problems.push((format!("destination DOM: {}", e), "C09"));
+    }
+    let mut want = before.clone();
+    let mut dwant = dbefore.clone();
+    let unlink = |m: &mut Snap| {
+        if let Some(v) = m.get_mut(&old_parent_name) {
+            v.1.retain(|c| c != &kname);
+        }
+    };
+    match op {
+        0 | 2 => {
+            unlink(&mut want);
+            for i in &sub {
+                want.remove(&format!("n{}", i));
+            }
+        }
+        1 => {
+            unlink(&mut want);
+            if let Some(v) = want.get_mut(&dst.0) {
+                v.1.push(kname.clone());
+            }
+            if let Some(v) = want.get_mut(&kname) {
+                v.0 = dst.0.clone();
+            }
+        }
+        3 => {
+            unlink(&mut want);
+            if let Some(v) = want.get_mut(&old_parent_name) {
+                v.1.push(kname.clone());
+            }
+        }
+        _ => {}
+    }
+    if op == 2 {
+        if let Some(v) = dwant.get_mut("there") {
+            v.1.push(kname.clone());
+        }
+    }
+    let after = snapshot(&dom, &known);
+    // a Ref whose target left the DOM is rendered by snapshot() through the raw value (Debug of
+    // the Variant), so rows compare equal exactly when nothing about the instance changed
+    let differ = |want: &Snap, after: &Snap, which: &str, problems: &mut Vec<(String, &'static str)>| {
+        if want == after {
+            return;
+        }
+        let extra: Vec<&String> = after.keys().filter(|k| !want.contains_key(*k)).take(3).collect();
+        let gone: Vec<&String> = want.keys().filter(|k| !after.contains_key(*k)).take(3).collect();
+        if !extra.is_empty() {
+            problems.push((format!("{}: {:?} can still be looked up", which, extra), "C09"));
+        } else if !gone.is_empty() {
+            problems.push((format!("{}: {:?} disappeared", which, gone), "C10"));
+        } else if let Some((k, v)) = want.iter().find(|(k, v)| after.get(*k) != Some(v)) {
+            let a = after.get(k).cloned().unwrap_or_default();
+            let what = if a.0 != v.0 {
+                format!("parent {} -> {}", v.0, a.0)
+            } else if a.1 != v.1 {
+                format!("children {:?} -> {:?}", v.1.iter().take(6).collect::<Vec<_>>(), a.1.iter().take(6).collect::<Vec<_>>())
+            } else {
+                "properties changed".to_owned()
+            };
+            problems.push((format!("{}: {} differs from the documented outcome ({})", which, k, what), "C10"));
+        }
+    };
+    differ(&want, &after, "source DOM", &mut problems);
+    let dafter = snapshot(&dest, &dknown);
+    differ(&dwant, &dafter, "destination DOM", &mut problems);
+    // the subtree where it went: same referents (transfer) or an isomorphic copy (clone)
+    if op == 2 {
+        let moved: Vec<(String, Ref)> = sub.iter().map(|i| (format!("n{}", i), refs[*i])).collect();
+        let got = snapshot(&dest, &moved);
+        for i in &sub {
+            let name = format!("n{}", i);
+            let mut w = before.get(&name).cloned().unwrap_or_default();
+            if *i == k {
+                w.0 = "there".to_owned();
+            }
+            match got.get(&name) {
+                Some(g) if g.0 == w.0 && g.1 == w.1 => {
+                    // properties: equal except that a UniqueId may not change here (the destination holds none)
+                    if g.2 != w.2 {
+                        problems.push((format!("the transferred {} arrived with other properties", name), "C10"));
+                        break;
+                    }
+                }
+                Some(g) => {
+                    problems.push((format!("the transferred {} arrived with parent {} and {} children, {} and {} expected", name, g.0, g.1.len(), w.0, w.1.len()), "C10"));
+                    break;
+                }
+                None => {
+                    problems.push((format!("the transferred {} cannot be looked up in the destination", name), "C09"));
+                    break;
+                }
+            }
+        }
+    }
+    if let Some(c) = copy {
+        let ddom: &WeakDom = if op == 4 { &dom } else { &dest };
+        let mut map: std::collections::HashMap<Ref, Ref> = std::collections::HashMap::new();
+        let mut work = vec![(kr, c)];
+        let mut bad: Option<String> = None;
+        while let Some((o, nn)) = work.pop() {
+            let (Some(oi), Some(ni)) = (dom.get_by_ref(o), ddom.get_by_ref(nn)) else {
+                bad = Some("an original or its copy cannot be looked up".to_owned());
+                break;
+            };
+            if oi.name != ni.name || oi.class != ni.class || oi.children().len() != ni.children().len() {
+                bad = Some(format!("the copy of {} is {} ({}) with {} children", oi.name, ni.name, ni.class, ni.children().len()));
+                break;
+            }
+            map.insert(o, nn);
+            work.extend(oi.children().iter().copied().zip(ni.children().iter().copied()));
+        }
+        if bad.is_none() && map.len() != sub.len() {
+            bad = Some(format!("{} instances were copied, the subtree has {}", map.len(), sub.len()));
+        }
+        if bad.is_none() {
+            if ddom.get_by_ref(c).map(|i| i.parent().is_some()).unwrap_or(true) {
+                bad = Some("the copied root has a parent".to_owned());
+            }
+        }
+        if bad.is_none() {
+            for i in &sub {
+                let Some(nn) = map.get(&refs[*i]) else { continue };
+                let ni = ddom.get_by_ref(*nn).unwrap();
+                let target = refs[(7 * i + 3) % n];
+                let want_ref = if let Some(m) = map.get(&target) {
+                    *m
+                } else if op == 4 {
+                    target
+                } else {
+                    Ref::none()
+                };
+                if ni.properties.get(&"R".into()) != Some(&Variant::Ref(want_ref)) {
+                    bad = Some(format!("the copy of n{} has R = {:?}; its original points {} the cloned subtree", i, ni.properties.get(&"R".into()), if map.contains_key(&target) { "inside" } else { "outside" }));
+                    break;
+                }
+                if ni.properties.get(&"P".into()) != Some(&Variant::Int32(*i as i32)) {
+                    bad = Some(format!("the copy of n{} has P = {:?}", i, ni.properties.get(&"P".into())));
+                    break;
+                }
+                let has_uid = ni.properties.get(&"UniqueId".into()).is_some();
+                if has_uid != (i % 5 == 0) {
+                    bad = Some(format!("the copy of n{} {} a UniqueId", i, if has_uid { "gained" } else { "lost" }));
+                    break;
+                }
+            }
+        }
+        if let Some(b) = bad {
+            problems.push((b, "C11"));
+        }
+        // unique ids: pairwise distinct in each DOM
+        for (which, d) in [("source", &dom), ("destination", &dest)] {
+            let mut seen = std::collections::HashSet::new();
+            let mut stack = vec![d.root_ref()];
+            if which == "source" && op == 4 {
+                stack.push(c);
+            }
+            if which == "destination" && op == 5 {
+                stack.push(c);
+            }
+            while let Some(r) = stack.pop() {
+                if let Some(i) = d.get_by_ref(r) {
+                    if let Some(Variant::UniqueId(u)) = i.properties.get(&"UniqueId".into()) {
+                        if !seen.insert(*u) {
+                            problems.push((format!("two instances of the {} DOM hold UniqueId {}", which, u), "C12"));
+                            break;
+                        }
+                    }
+                    stack.extend(i.children().iter().copied());
+                }
+            }
+        }
+    }
+    problems
+}
+
+pub fn bulk_all() -> (Vec<Problem>, u64) {
+    let mut out: Vec<Problem> = Vec::new();
+    let mut count = 0u64;
+    for n in [15usize, 16, 17, 31, 32, 33, 63, 64, 65, 127, 128, 129, 255, 256, 257, 1023, 1024, 1025, 4097] {
+        let mut ks = vec![0usize, 1, 2, 3, 4, n / 3, n / 2, n - 2, n - 1];
+        ks.sort();
+        ks.dedup();
+        for k in ks {
+            for op in 0..6u8 {
+                count += 1;
+                for (what, prop) in bulk_case(n, k, op) {
+                    let opn = ["destroy", "transfer_within", "transfer", "transfer-there-and-back", "clone_within", "clone_into_external"][op as usize];
+                    let class = if n <= 17 { "n<=17" } else if n <= 65 { "n<=65" } else if n <= 257 { "n<=257" } else { "n>257" };
+                    out.push((
+                        format!("domprobe|many-instances|{}|{}|{}", opn, class, prop),
+                        format!("a DOM of {} instances (ternary tree), {} of n{}: {}", n, opn, k, what),
+                        serde_json::json!({"domprobe": {"kind": "bulk", "n": n, "k": k, "op": op}}),
+                        prop,
+                    ));
                 }
             }
         }
